@@ -370,6 +370,13 @@ def pick_rect(v: View, rng: random.Random, kind: str):
         ht = [t for t in v.toks if r[:2] <= v.tok_rect(t)[:2] and v.tok_rect(t)[2:] <= b]
         if not ht:
             return None
+        if rng.random() < 0.35:
+            # the block keyword itself (also of an elif / else / except / finally line that belongs to the statement)
+            kt = [t for t in v.toks if t.string in BLOCK_KEYWORDS_1 and r[:2] <= v.tok_rect(t)[:2] <= r[2:]
+                  and not L[t.start[0] - 1][:t.start[1]].strip()]
+            if kt:
+                t = rng.choice(kt[:4])
+                return v.tok_rect(t), {'header': n, 'kwtok': True}
         i = rng.randrange(len(ht))
         j = min(len(ht) - 1, i + rng.choice([0, 0, 1, 2]))
         return v.tok_rect(ht[i])[:2] + v.tok_rect(ht[j])[2:], {'header': n}
@@ -423,6 +430,10 @@ INVALID = [')', '(', '$', 'if', "'", '"""', ':', '=', '?', ']', 'def', '\\', '1x
 GLUE = [';', '; ', '\n', ' ', '  ', ',', ', ', '.', ':', ' = ', '(', ')', '\\\n', ' if ', ' else ', ' and ', ' in ', ' is ',
         ' not ', 'async ', 'await ', '*', '**', '# c', '# c\n', ' # c', '#', 'not ', 'lambda: ', ':=', ' for q in r', '@',
         '-', '~', 'yield ', 'from ', ' as n', 'elif', 'else', 'except', 'finally', 'case ', ' from e', 'del ', 'return ']
+BLOCK_KEYWORDS = ['if', 'while', 'for', 'async for', 'with', 'async with', 'def', 'async def', 'class', 'try', 'except',
+                  'except*', 'elif', 'else', 'finally', 'match', 'case']
+BLOCK_KEYWORDS_1 = ('if', 'while', 'for', 'with', 'def', 'class', 'try', 'except', 'elif', 'else', 'finally', 'async',
+                    'match', 'case')
 OPS = ['+', '-', '*', '/', '//', '%', '@', '**', '<<', '>>', '&', '|', '^', '<', '>', '==', '!=', '<=', '>=', '=', '+=',
        '-=', ':=', ',', '.', ':', ';', 'and', 'or', 'not', 'in', 'is', 'if', 'else']
 
@@ -488,6 +499,8 @@ def pick_repl(v: View, rng: random.Random, rect, rkind: str, aux: dict, profile:
             return 'empty', ''
         s = rng.choice(STMTS) if rng.random() < 0.6 else rng.choice(BLOCKS).format(i=ind)
         return 'stmt-line', ind + s + ('\n' if aux.get('lines') == 'with-newline' else '')
+    if rkind == 'header' and aux.get('kwtok') and r < 0.7:
+        return 'block-keyword', rng.choice(BLOCK_KEYWORDS)
     if rkind == 'header' and r < 0.5:
         return 'expr', rng.choice(EXPRS)
     # generic menu
@@ -523,7 +536,8 @@ PROFILES = {
     # since the reparser fixes (e567fb3, b8b004e, 16eaee8) also include the shapes that used to be known findings:
     # new statement line at column 0 of a top-level statement, whole-statement replacement called on a statement
     # node, whole `elif` replacement, indentation and whole-line edits; 'wild' = everything
-    'clean': {'node': 5, 'stmt': 4, 'newline-stmt': 3, 'newline-stmt0': 3, 'tok': 3, 'elif-whole': 1, 'indent': 1, 'lines': 1},
+    'clean': {'node': 5, 'stmt': 4, 'newline-stmt': 3, 'newline-stmt0': 3, 'tok': 3, 'elif-whole': 1, 'indent': 1, 'lines': 1,
+              'header': 2},
     'wild': {'node': 2, 'stmt': 2, 'newline-stmt': 1, 'newline-stmt0': 1, 'tok': 3, 'tokrange': 3, 'intok': 3, 'span': 3, 'lines': 3,
              'indent': 3, 'point': 4, 'random': 3, 'header': 3, 'stmt-tail': 2, 'stmt-head': 2, 'gap': 2,
              'elif-whole': 2},
@@ -922,3 +936,30 @@ def _inline_programs():
 
 
 INLINE_PROGRAMS = _inline_programs()
+
+
+# ----------------------------------------------------------------------------------------------------------------------
+# direction G, second table: header-confined edits enumerated by RawHdrGen.tla
+
+def run_hdr_row(rec: RawRecorder, tid: int, row):
+    """row = [text, rect, repl, mustBeInvalid, case] as built by RawHdrGen.tla.  Executes put_src on pfst, records the
+    event for RawTrace and cross-checks the spec's one-directional prediction (mustBeInvalid => ast.parse rejects)."""
+    text, rect, repl, must_invalid, case = row
+    src, rp = _s(text), _s(repl)
+    new = splice(src, rect, rp)
+    mism = None
+    if try_parse(src, 'exec') is None:
+        mism = ('program-invalid', src)
+    elif must_invalid and try_parse(new, 'exec') is not None:
+        mism = ('predicted-invalid-but-valid', new, case)
+    root = FST(src, 'exec')
+    init = rec.state(root, 'exec')
+    plan = {'call': 'put_src', 'rect': list(rect), 'repl': rp, 'gen': 'hdrtable'}
+    exc = execute(root, plan)
+    post = rec.state(root, 'exec')
+    ev = make_event(rec, plan, src, 'exec', post, exc)
+    tr = {'id': tid, 'seed': 0, 'mode': 'exec', 'init': init, 'steps': [ev]}
+    sc = {'driver': 'hdrtable', 'src': src, 'mode': 'exec', 'seed': 0, 'profile': 'hdrtable', 'case': case,
+          'script': [{'plan': plan, 'pre_src': src, 'post_src': root.src,
+                      'exc': None if exc is None else f'{type(exc).__name__}: {exc}'}]}
+    return tr, sc, mism
